@@ -299,6 +299,22 @@ def run(cx: Cx):
 
     # ------------------------------------------------------------ write_records
     wr = cx.fn(WR)
+    # the held records reach the file through the flush of execute() only, where writing is paired with the counter reset and the
+    # clearing: any other package caller (a clean_up override that "saves what is left", ...) writes records that stay held and are
+    # written again by the next flush
+    others = []
+    for k_, c_ in cx.effects.callers_of(wr):
+        kf = cx.prog.functions.get(k_.split('#')[0])
+        roots = cx.effects.public_roots(kf) if kf is not None else {k_}
+        if k_.split('#')[0] != fx.qualname and roots != {fx.qualname}:
+            others.append((k_, kf, c_))
+    if others:
+        k_, kf, c_ = others[0]
+        cx.violation('R-PAIR', k_, 'records-written-by-the-flush-only',
+                     f"{k_} calls write_records() outside FileCollector.execute's flush: the records it writes stay held (nothing is cleared, "
+                     f"the counter is not reset), so the file no longer holds each collected record exactly once", where=cx.where(kf, c_.line) if kf else '')
+    else:
+        cx.ok('R-PAIR', 'write_records is called by the flush of execute() only', where=cx.where(wr), function=wr.qualname)
     ws = Sym(wr.params[0])
     okw = True
     nw = 0
